@@ -173,3 +173,16 @@ def snapshot(node):
     flags = tuple((f, getattr(node, f)) for f in ('allow_key_edits', 'auto_match_keys', 'allow_list_edits',
                                                   'allow_list_edits_when_same_length') if hasattr(node, f))
     return (name, flags, tuple(kids))
+
+
+def canon(node):
+    """Order-insensitive canonical form: mappings and multisets sorted, lists in order."""
+    import graphtage
+    if node is None:
+        return None
+    if isinstance(node, graphtage.LeafNode):
+        return (type(node.object).__name__, repr(node.object))
+    kids = [canon(c) for c in node.children()]
+    if isinstance(node, (graphtage.MultiSetNode, graphtage.MappingNode)):
+        return ('unordered', tuple(sorted(kids, key=repr)))
+    return (type(node).__name__.replace('Edited', ''), tuple(kids))
